@@ -461,23 +461,23 @@ func init() {
 		// Settle lets every other goroutine run until none is enabled (timers do not fire).
 		vr + "Settle": func(fr *frame, args []value) value {
 			it := fr.i
-			for {
-				en := it.enabledOthers(fr.g)
-				if len(en) == 0 {
-					return nil
-				}
-				self := fr.g
-				self.blocked = true
-				self.what = "Settle"
-				self.ready = func() bool { return len(it.enabledOthers(self)) == 0 }
-				k := 0
-				if len(en) > 1 {
-					k = it.pc.choose(it, "sched", len(en), nil)
-				}
-				en[k].blocked = false
-				it.switchTo(self, en[k])
-				self.blocked = false
+			self := fr.g
+			if !it.quiescent(self, false) {
+				self.quiet = true
+				it.block(fr.caller, "Settle", func() bool { return it.quiescent(self, false) })
+				self.quiet = false
 			}
+			return nil
+		},
+		vr + "AwaitQuiescence": func(fr *frame, args []value) value {
+			it := fr.i
+			self := fr.g
+			if !it.quiescent(self, true) {
+				self.quiet = true
+				it.block(fr.caller, "AwaitQuiescence", func() bool { return it.quiescent(self, true) })
+				self.quiet = false
+			}
+			return nil
 		},
 		// TimerChan(d) is time.After without the time.Time payload.
 		vr + "TimerChan": func(fr *frame, args []value) value { return fr.i.newTimer(fr.caller, asInt64(args[0])) },
@@ -521,6 +521,45 @@ func init() {
 			c := lift(args[0])
 			a, b := lift(args[1]), lift(args[2])
 			return &Sym{a.s, app("ite", c.e, a.e, b.e)}
+		},
+	})
+
+	// ---- generic std helpers (matched by the origin of the instantiation)
+	reg(map[string]externalFn{
+		"maps.Clone": func(fr *frame, args []value) value {
+			m, _ := args[0].(*omap)
+			if m == nil {
+				return (*omap)(nil)
+			}
+			c := makeMap(m.kt, 0).(*omap)
+			fr.i.nextObj++
+			c.id = fr.i.nextObj
+			for _, e := range m.live() {
+				c.insert(e.key, e.val)
+			}
+			return c
+		},
+		"slices.Sort": func(fr *frame, args []value) value {
+			x, _ := args[0].([]value)
+			sort.SliceStable(x, func(i, j int) bool {
+				switch a := x[i].(type) {
+				case string:
+					return a < x[j].(string)
+				case *Sym:
+					abortf("slices.Sort on symbolic values")
+				}
+				return asInt64(x[i]) < asInt64(x[j])
+			})
+			return nil
+		},
+		"slices.Contains": func(fr *frame, args []value) value {
+			x, _ := args[0].([]value)
+			for _, e := range x {
+				if e == args[1] {
+					return true
+				}
+			}
+			return false
 		},
 	})
 
@@ -727,6 +766,8 @@ func init() {
 		"unicode.IsLetter":    native(unicode.IsLetter),
 		"unicode.IsDigit":     native(unicode.IsDigit),
 		"regexp.MustCompile":  native(regexp.MustCompile),
+		"regexp.Compile":      native(regexp.Compile),
+		"regexp.MatchString":  native(regexp.MatchString),
 		"(*regexp.Regexp).MatchString":         native((*regexp.Regexp).MatchString),
 		"(*regexp.Regexp).FindStringSubmatch":  native((*regexp.Regexp).FindStringSubmatch),
 		"(*regexp.Regexp).FindString":          native((*regexp.Regexp).FindString),
